@@ -349,6 +349,36 @@ def case(args):
         tag = "ends-%s%d_%d_%d" % ("p" if strand == "+" else "m", tails, ds, de)
         extra = ["--model_construction_strategy", "all"]
         models = True
+    elif kind == "knownends":
+        # three annotated isoforms with one intron chain whose starts ascend (1001, 1031, 1061) and whose ends are a permutation of
+        # (3000, 3200, 3450); six polyA reads of a novel isoform (middle exon skipped) end 3 bases behind one of the annotated ends:
+        # the model's end is snapped to the closest annotated end - on either strand, whatever the order the ends are listed in
+        from vlib import worlds as W
+        strand, perm, which = param
+        w = W.base_world(1, 6000)
+        ends = [(3000, 3200, 3450)[i] for i in perm]
+        chain = [[1001, 1200], [1501, 1700], [2001, 2200], [2501, None]]
+        ts = []
+        for i, e in enumerate(ends):
+            ex = [list(x) for x in chain]
+            ex[0][0] = 1001 + 30 * i
+            ex[-1][1] = e
+            ts.append({"id": "T%d" % (i + 1), "exons": ex})
+        w["genes"].append({"id": "G1", "chr": "chr1", "strand": strand, "transcripts": ts})
+        syn.plant_for_transcripts(w)
+        novel = [[1101, 1200], [2001, 2200], [2501, (3000, 3200, 3450)[which] + 3]]
+        W.add_sites_for_blocks(w, "chr1", novel, strand)
+        W.dedup_sites(w)
+        if strand == "+":
+            tail = {"clip_right": "A" * 30}
+        else:
+            # the gene is on '-': its 3' ends are the STARTS; mirror the coordinates inside the locus so that the varied ends are 3' ends
+            tail = {"clip_left": "T" * 30}
+        w["reads"] = [dict({"name": "k%d" % i, "chr": "chr1", "blocks": [list(b) for b in novel], "reverse": strand == "-"}, **tail) for i in range(6)]
+        w["reads"].append({"name": "edge", "chr": "chr1", "blocks": [[1, 300]], "reverse": False})
+        tag = "knownends-%s%s_%d" % ("p" if strand == "+" else "m", "".join(map(str, perm)), which)
+        extra = ["--model_construction_strategy", "all"]
+        models = True
     elif kind == "c13":
         # C13's annotations (overlapping / contained / shared / antisense exons, nested introns, intron-less loci) with all slot-subset
         # reads: exon and intron inclusion/exclusion tables of the mirrored input must be the mirrored tables
@@ -443,6 +473,10 @@ def run(ctx):
                 for de in offs:
                     if (ds, de) != (0, 0):
                         jobs.append(("ends", (strand, tails, ds, de), "reflect", ctx.scratch))
+    for strand in "+-":
+        for perm in itertools.permutations(range(3)):
+            for which in ((0, 2) if quick else (0, 1, 2)):
+                jobs.append(("knownends", (strand, perm, which), "reflect", ctx.scratch))
     from props import c13
     ids = sorted(c13.ISO_MENU)
     c13_variants = [0, 1, 2] + [(isos, sec) for n in (1, 2) for isos in itertools.combinations(ids, n) for sec in c13.SECOND]
